@@ -22,12 +22,15 @@ RULE = (
     "Invariant at every 10th consumer step and at the end (after gc): alive source items <= window + "
     "3*sources + 3, window = batch size / n of nlargest,nsmallest / lead of the fastest over the slowest "
     "live tee child / 0; the constant does not depend on the stream length. tee cases draw per-child "
-    "progress patterns and early closes (also before the first item). Non-trivial: stream length >= 10x "
+    "progress patterns and early closes (also before the first item), optionally with child 0 handed on to a second "
+    "tee; borrow-loop: a long stream processed record by record, each record through a fresh borrow() of one scoped / "
+    "borrowed parent that is abandoned, closed or exhausted through islice. Non-trivial: stream length >= 10x "
     "the bound (an accumulating implementation must exceed it); distinct by tool, parameters, length, pattern."
 )
 ASSUMPTIONS = [
     "retention is observed through CPython reference counting plus gc.collect(); a statement about CPython 3.12",
     "cycle, sorted, list/tuple/set/dict and lagging tee children are documented accumulators and excluded",
+    "borrow-loop: the event loop gets a turn between two records, so async generators abandoned by the consumer are finalised by the loop's asyncgen hook (as under asyncio)",
 ]
 
 
